@@ -103,4 +103,20 @@ def readCsv (hs : List Header) (cells : List (List (Option Rat))) : Loaded :=
   if complete cells then .dense a (cells.map fun row => row.filterMap id)
   else .irregular (cells.map fun row => ragged a row)
 
+/-! ### Writing a table (the inverse of `read_csv` on well-formed data) -/
+
+/-- A dense dataset written as a CSV table: integer abscissae as column labels, every
+value a cell. -/
+def toCsvDense (args : List Int) (vals : List (List Rat)) : List Header × List (List (Option Rat)) :=
+  (args.map Header.int, vals.map fun row => row.map some)
+
+/-- One irregular observation (its `(abscissa, value)` pairs) laid on the columns `a`:
+the cell of column `x` holds the value observed at `x`, or is empty. -/
+def unragged (a : List Int) (row : List (Int × Rat)) : List (Option Rat) :=
+  a.map fun x => row.lookup x
+
+/-- An irregular dataset written as a CSV table over the columns `a`. -/
+def toCsvIrr (a : List Int) (rows : List (List (Int × Rat))) : List Header × List (List (Option Rat)) :=
+  (a.map Header.int, rows.map (unragged a))
+
 end FDA.Tab
